@@ -300,12 +300,13 @@ def h_Q_U():
     Ssum = rsum('qsum', term)
 
     class Dist:
-        def items(self): return Opaque('items')
+        def __init__(self, x, y): self.x, self.y = x, y
+        def items(self): return Opaque('items', owner=(self.x, self.y))
 
     class MDP:
         discount_rate = g
         def is_absorbing(self, x): return S.SymBool(Abs(x.e))
-        def next_state_dist(self, x, y): return Dist()
+        def next_state_dist(self, x, y): return Dist(x, y)
         def reward(self, x, y, z): return S.SymReal(Rw(x.e, y.e, z.e))
 
     class Vtab:
@@ -332,7 +333,8 @@ def h_Q_U():
         S.assume(S.SymBool(ghost['kz'] < n))
         state['phase'] = 'back'
         return (Atom(key(ghost['kz'])), S.SymReal(val(ghost['kz'])))
-    spec = CutSpec(inv=inv, havoc=havoc, element=element, exhausted=lambda L: S.SymBool(ghost['kz'] == n))
+    spec = CutSpec(inv=inv, havoc=havoc, element=element, exhausted=lambda L: S.SymBool(ghost['kz'] == n),
+                   iterable_ok=lambda L, v: isinstance(v, Opaque) and v.owner[0] is s and v.owner[1] is a)
     fcut, text, info = cut(lr.LRTDP.Q, {0: spec}, dump_dir=os.path.join(ROOT, 'evidence', 'extracted'))
     q = fcut(planner, MDP(), s, a)
     S.check('U:Q:0-at-absorbing-states;else-probability-weighted-lookahead-with-absorbing-successors-at-0(any-support-size)',
